@@ -194,7 +194,11 @@ class Ctx:
             e.update(env)
         t = time.time()
         try:
-            p = subprocess.run([self.vh] + [str(a) for a in args], cwd=self.work, env=e,
+            def limit():
+                # a call of the code under test that never returns may also allocate without bound
+                import resource
+                resource.setrlimit(resource.RLIMIT_AS, (32 << 30, 32 << 30))
+            p = subprocess.run([self.vh] + [str(a) for a in args], cwd=self.work, env=e, preexec_fn=limit,
                                stdout=subprocess.PIPE, stderr=subprocess.PIPE, text=True,
                                timeout=timeout)
         except subprocess.TimeoutExpired:
